@@ -33,7 +33,7 @@ RULE = (
 )
 ASSUMPTIONS = [
     "a reply addressed to another requester, and an echo whose *requester* differs, are recorded but not judged (the statement lists code, verb, responding device, context)",
-    "context layout rule (independent of the library): payload[:2]; 0005/000C payload[:4]; 0404 payload[:2]+payload[10:12]; 0418 payload[4:6]; 3220 payload[4:6]",
+    "context layout rule (independent of the library): payload[:2]; 0005/000C payload[:4]; 0404 payload[:4]+payload[10:12] (index, zone/DHW marker, fragment); 0418 payload[4:6]; 3220 payload[4:6]",
     "the 0418 null-entry reply (payload 000000B0...7FFFFF70...) is the documented answer for an empty log slot and counts as the proper reply",
 ]
 REQUIRED = {"pairs.corpus": 10, "pairs.sampled": 20, "episodes.pos_echo": 50, "episodes.pos_reply": 30, "episodes.nm_echo": 100, "episodes.nm_reply": 60}
@@ -63,7 +63,7 @@ def ctx_span(code: str, verb: str = "RQ") -> list[tuple[int, int]]:
     if code in ("0005", "000C"):
         return [(0, 4)]
     if code == "0404":
-        return [(0, 2), (10, 12)]
+        return [(0, 4), (10, 12)]  # index + zone(20)/DHW(23) marker, fragment number
     if code in ("0418", "3220"):
         return [(4, 6)]
     regex = CODES_SCHEMA.get(code, {}).get(verb, "")
